@@ -23,6 +23,8 @@ coordinates.  Semantics implemented here are those of the property statements
   action.bits_per_action / (component.bits_per_value > workload bits_per_value);
 * Toll: no occupancy, no write actions; one read action per value crossing it in
   a counted direction (down: parent->child fills, up: child->parent write-backs);
+  a skippable first read crosses the Toll iff the child below takes it (child's
+  skip_initial_output_write is False) -- calibrated against analyze_toll (C31);
 * energy = sum(actions * energy) + leak_power * latency;
   latency = max over components of sum(actions / throughput);
   everything scales with workload.n_instances * einsum.n_instances;
@@ -222,10 +224,11 @@ def execute(tree, arch: S.Arch, wl: S.WL, directions=None) -> ExecResult:
                         if not skip[level]:
                             res.add(level, tensor, "write")
                         for tl in tolls_between:
-                            # a Toll passes the (skipped) transfer through: it is charged
-                            # iff the transfer is charged at the parent's read side
-                            if _dir(directions, tl["level"], tensor) != "up" and not (
-                                    skip[level] and skip[parent["level"]]):
+                            # a Toll has no skip setting of its own ("things just pass
+                            # through ... it inherits the value from the child"): the
+                            # never-written value crosses it iff the child below actually
+                            # takes it, i.e. iff the child's fill is charged
+                            if _dir(directions, tl["level"], tensor) != "up" and not skip[level]:
                                 res.add(tl["level"], tensor, "read")
             run(nodes, i + 1, ranges, chain + (inst,), einsum_hint)
             # write back (only tensors written by the Einsum(s) below)
@@ -282,6 +285,9 @@ def execute(tree, arch: S.Arch, wl: S.WL, directions=None) -> ExecResult:
                     has = True if holder["has"] is None else (c in holder["has"])
                     if has or not (comp_skip and skip[hl]):
                         res.add(hl, t.name, "read")
+                    # Toll: a never-written value crosses it iff the compute below takes
+                    # it (the Toll inherits the skip of its child, see above)
+                    if has or not comp_skip:
                         for tl in tolls_between:
                             if _dir(directions, tl["level"], t.name) != "up":
                                 res.add(tl["level"], t.name, "read")
